@@ -34,7 +34,8 @@ def build(variant):
     iso.new(interchange_level=3, joliet=3, udf='2.60')
     keep = []
     for n in LENGTHS:
-        data = content_bytes('c%d' % n)
+        # 'readded': the first generation of every file has other bytes of the same length
+        data = content_bytes(('c%ds5' if variant == 'readded' else 'c%d') % n)
         fp = io.BytesIO(data)
         keep.append(fp)
         iso.add_fp(fp, len(data), fname(n), joliet_path='/f%d' % n, udf_path='/f%d' % n)
@@ -42,7 +43,7 @@ def build(variant):
     fp = io.BytesIO(data)
     keep.append(fp)
     iso.add_fp(fp, len(data), '/G.;1', joliet_path='/g', udf_path='/g')
-    if variant in ('opened', 'edited'):
+    if variant in ('opened', 'edited', 'readded'):
         img = env.write_image(iso)
         iso2 = env.PyCdlib()
         backing = io.BytesIO(img)
@@ -62,6 +63,28 @@ def build(variant):
         keep.append(fp)
         iso.add_fp(fp, len(content_bytes(OTHER)), '/G.;1', joliet_path='/g', udf_path='/g')
         iso.force_consistency()
+    if variant == 'readded':
+        # every name is looked up and read through every namespace (lookup caches), removed, and added again with the
+        # contents the scripts expect; streams and extractions must show the second generation
+        for n in LENGTHS:
+            for kw in ({'iso_path': fname(n)}, {'joliet_path': '/f%d' % n}, {'udf_path': '/f%d' % n}):
+                iso.get_record(**kw)
+                iso.get_file_from_iso_fp(io.BytesIO(), **kw)
+        for n in LENGTHS:
+            # rm_file by one name (alternating the namespace used), then whatever name is still there
+            if n % 2:
+                iso.rm_file(joliet_path='/f%d' % n)
+            else:
+                iso.rm_file(fname(n))
+            for kw in ({'iso_path': fname(n)}, {'joliet_path': '/f%d' % n}, {'udf_path': '/f%d' % n}):
+                try:
+                    iso.rm_hard_link(**kw)
+                except env.PyCdlibException:
+                    pass
+            data = content_bytes('c%d' % n)
+            fp = io.BytesIO(data)
+            keep.append(fp)
+            iso.add_fp(fp, len(data), fname(n), joliet_path='/f%d' % n, udf_path='/f%d' % n)
     _IMAGES[variant] = (iso, keep)
     return _IMAGES[variant]
 
@@ -119,7 +142,10 @@ def run_script(variant, n, script, devs, path_kw=None):
         return (-1, 'open_file_from_iso raised %s' % e)
     with cm as f:
         for d in bygap.get(0, ()):
-            do_dev(iso, n, d)
+            try:
+                do_dev(iso, n, d)
+            except Exception as e:
+                return (0, 'interfering operation %s raised %s: %s' % (d, type(e).__name__, e))
         for i, op in enumerate(script):
             pos = ref.tell()
             if op[0] == 'read' or op[0] == 'readall':
@@ -176,7 +202,10 @@ def run_script(variant, n, script, devs, path_kw=None):
             except Exception as e:
                 return (i, 'tell raised %s' % e)
             for d in bygap.get(i + 1, ()):
-                do_dev(iso, n, d)
+                try:
+                    do_dev(iso, n, d)
+                except Exception as e:
+                    return (i, 'interfering operation %s raised %s: %s' % (d, type(e).__name__, e))
     return None
 
 
@@ -198,14 +227,14 @@ BOUNDS = {
 def tasks(tier):
     out = []
     for L, k in BOUNDS[tier]:
-        for variant in ('opened', 'new', 'edited'):
+        for variant in ('opened', 'new', 'edited', 'readded'):
             for n in LENGTHS:
-                if variant == 'edited' and (L > 2 or k > 1):
+                if variant in ('edited', 'readded') and (L > 2 or k > 1):
                     continue
                 nops = len(stream_ops(n))
                 for first in range(nops):
                     out.append({'variant': variant, 'n': n, 'L': L, 'k': k, 'first': first})
-    for variant in ('opened', 'new', 'edited'):
+    for variant in ('opened', 'new', 'edited', 'readded'):
         for n in LENGTHS:
             out.append({'variant': variant, 'n': n, 'extract': True, 'max_bs': 2050 if tier == 'thorough' else 130})
     return out
@@ -224,6 +253,7 @@ def dev_placements(L, k):
 def run_task(task):
     res = Result()
     variant, n = task['variant'], task['n']
+    _IMAGES.clear()      # every task starts from freshly built images
     if task.get('extract'):
         iso, keep = build(variant)
         data = content_bytes('c%d' % n)
@@ -256,8 +286,18 @@ def run_task(task):
                 r = run_script(variant, n, script, devs)
                 if r is not None:
                     i, msg = r
-                    case = {'variant': variant, 'n': n, 'script': [list(o) for o in script[:i + 1]], 'devs': [list(d) for d in devs if d[0] <= i + 1], 'size': i + 1 + len(devs)}
-                    res.violation('stream behaves like an in-memory stream of the content', cls_of(script[i], msg), '%s devs=%s: %s' % (script[:i + 1], devs, msg), case)
+                    # the image object is shared by the scripts of one task: confirm on a freshly built one
+                    _IMAGES.pop(variant, None)
+                    r2 = run_script(variant, n, script, devs)
+                    if r2 is not None and cls_of(script[r2[0]], r2[1]) == cls_of(script[i], msg):
+                        case = {'variant': variant, 'n': n, 'script': [list(o) for o in script[:i + 1]], 'devs': [list(d) for d in devs if d[0] <= i + 1], 'size': i + 1 + len(devs)}
+                        res.violation('stream behaves like an in-memory stream of the content', cls_of(script[i], msg), '%s devs=%s: %s' % (script[:i + 1], devs, msg), case)
+                    else:
+                        # only after the earlier scripts of this task ran on the same object: the whole task is the witness
+                        case = {'variant': variant, 'n': n, 'task': dict(task), 'size': 1000}
+                        res.violation('stream behaves like an in-memory stream of the content', 'after earlier reads on the same object: ' + cls_of(script[i], msg),
+                                      'after the earlier scripts of this task: %s devs=%s: %s' % (script[:i + 1], devs, msg), case)
+                        return res
                 else:
                     res.add('outcomes', hash((variant, n, tuple(script[-1:]))) & 0xffffff)
     if not res.viol:
@@ -266,6 +306,10 @@ def run_task(task):
 
 
 def check_case(case):
+    if 'task' in case:
+        r = run_task(case['task'])
+        return [{'clause': k[0], 'cls': k[1], 'msg': w['msg']} for k, w in r.viol.items()]
+    _IMAGES.clear()
     if 'extract' in case:
         iso, keep = build(case['variant'])
         data = content_bytes('c%d' % case['n'])
@@ -286,7 +330,7 @@ def check_case(case):
 
 
 def shrink(case):
-    if 'extract' in case:
+    if 'extract' in case or 'task' in case:
         return
     s, d = case['script'], case['devs']
     for i in range(len(s) - 1):
@@ -310,7 +354,8 @@ def coverage(tier, r):
         'extractions': r.n.get('extractions', 0),
         'bound': [{'script_length': L, 'deviations': k, 'stream_alphabet': len(stream_ops(5)), 'deviation_kinds': len(DEVS)} for L, k in BOUNDS[tier]],
         'file_lengths': list(LENGTHS),
-        'variants': ['opened image', 'added but not yet written', 'opened image edited and re-laid-out (scripts of length <= 2)'],
+        'variants': ['opened image', 'added but not yet written', 'opened image edited and re-laid-out (scripts of length <= 2)',
+                     'opened image whose files were looked up, removed and added again with other bytes (scripts of length <= 2)'],
         'exhaustive': True,
         'explanation': 'every stream script up to the length bound, with every placement of up to k interfering operations, on every file length, '
                        'on an opened and on an unwritten image, compared step by step with io.BytesIO; plus whole-file extraction with every block size',
